@@ -5,7 +5,7 @@ N="$1"; P="$2"
 for x in a b; do
   f=/tmp/seed_out$N/$P/$x/patch.diff
   [ -f "$f" ] || continue
-  r=$(${ADGVERIF:-/verif/bin/adgverif} mutant $P /repo $f | tail -1)
+  r=$(${ADGVERIF:-/verif/bin/adgverif} mutant $P ${ADGREPO:-/repo} $f | tail -1)
   st=$(echo "$r" | python3 -c "import json,sys; d=json.loads(sys.stdin.read()); print(d.get('status'), [x.split(' ')[0] for x in (d.get('fired') or [])][:3], d.get('why',''))")
   echo "$P-$x checker=${ADGVERIF_REV:-$(git -C /verif rev-parse --short HEAD)} $st" | tee -a /verif/seeded/ROUND${N}_first_encounter.log
 done
